@@ -14,14 +14,23 @@ func c19Keeper() (BaseKeeper, sdk.Context) {
 	return BaseKeeper{cdc: zz.Codec(), storeKey: env.Key("ucdao")}, env.Ctx
 }
 
-// VerifC19_Ucdao: Export(Init(Export(S))) = Export(S) for an arbitrary ledger S over N accounts x 2 denominations.
+// VerifC19_Ucdao: Export(Init(Export(S))) = Export(S) for an arbitrary ledger S over N accounts x 2 or 3 denominations.
 func VerifC19_Ucdao() {
 	k1, ctx1 := c19Keeper()
 	if err := k1.SetParams(ctx1, types.Params{EnableDao: zz.AnyBool("enable")}); err != nil {
 		panic(err)
 	}
 	n := zz.ParamInt("accounts", 2)
-	tot := []sdk.Coin{sdk.NewCoin("aISLM", sdk.ZeroInt()), sdk.NewCoin("aLIQUID1", sdk.ZeroInt())}
+	c12Denoms = []string{"aISLM", "aLIQUID1"}
+	if zz.ParamInt("denoms", 2) == 3 {
+		// more denominations than one (scaled) default page of a paginated read
+		c12Denoms = []string{"aISLM", "aLIQUID1", "aLIQUID2"}
+	}
+	defer func() { c12Denoms = []string{"aISLM", "aLIQUID1"} }()
+	var tot []sdk.Coin
+	for _, d := range c12Denoms {
+		tot = append(tot, sdk.NewCoin(d, sdk.ZeroInt()))
+	}
 	for i := 0; i < n; i++ {
 		for j, d := range c12Denoms {
 			b := zz.AnyAmount("bal."+string(rune('A'+i))+"."+d, 100)
